@@ -382,6 +382,8 @@ func specHeaderV4(op int, htype int, hlen int, hops int, xid string, secs int, f
 //@ define v4B(d) = v4A(d) + specIP4(string(d.ClientIPAddr)) + specIP4(string(d.YourIPAddr)) + specIP4(string(d.ServerIPAddr)) + specIP4(string(d.GatewayIPAddr))
 //@ define v4H(d) = v4B(d) + specFixed(string(d.ClientHWAddr), 16, 16) + specFixed(d.ServerHostName, 63, 64) + specFixed(d.BootFileName, 127, 128) + "\x63\x82\x53\x63"
 //@ define v4Pad(n) = ite(241+n < 300, 300-241-n, 0)
+// V4Wire(d): the bytes (*DHCPv4).ToBytes returns for d (its [layout] postcondition), for contracts of other packages
+//@ define V4Wire(d) = v4H(d) + specEncFrom(mapview(d.Options), 0) + specByte(255) + specZeros(v4Pad(len(specEncFrom(mapview(d.Options), 0))))
 
 //@ contract (*DHCPv4).ToBytes
 //@   requires ipOK(d.ClientIPAddr) && ipOK(d.YourIPAddr) && ipOK(d.ServerIPAddr) && ipOK(d.GatewayIPAddr)
